@@ -864,7 +864,10 @@ class Executor:
                 elif isinstance(n.op, ast.Not):
                     yield st2, (SV(z3.Not(self.as_bool(a)), "bool") if is_sym(a) else not a)
                 elif isinstance(n.op, ast.USub):
-                    yield st2, (SV(-a.t, a.sort) if isinstance(a, SV) else -a)
+                    if isinstance(a, SV) and a.sort == "obj":
+                        yield st2, SV(self.func("op_usub", "obj", "obj")(a.t), "obj")  # opaque object (e.g. a SymPy symbol): uninterpreted negation
+                    else:
+                        yield st2, (SV(-a.t, a.sort) if isinstance(a, SV) else -a)
                 elif isinstance(n.op, ast.UAdd):
                     yield st2, a
                 else:
